@@ -30,6 +30,14 @@ def d17_shape(plan):
     return mentions and any(tp0 in omitted(f) for f in plan.families if len(f.targs) < ngen)
 
 
+def d17_captured(plan, codes):
+    """D17 leaves the omitted parameter's NAME in the generated code; when the program has a local type of that name (the generator declares
+    `P<i>`-named local types on purpose, seeded change C16f) the stray name resolves to that type and rustc reports a type mismatch / an
+    unsatisfied bound instead of E0425 — the same mechanism, another diagnostic"""
+    omitted = {g[1] for f in plan.families for g in plan.trait_generics[len(f.targs):] if g[0] == "ty"}
+    return bool(omitted & set(plan.locals)) and bool(set(codes) & {"E0053", "E0277", "E0308", "E0599"})
+
+
 def d18_shape(plan):
     """a bounded trait type parameter is instantiated with a type *built from* block parameters"""
     tys = [g for g in plan.trait_generics if g[0] != "lt"]
@@ -77,7 +85,7 @@ def run(tier, seed, replay=None):
             rep.count("trait-param:" + gk[0] + (":bounded" if gk[0] == "ty" and gk[2] else "") + (":default" if gk[0] == "ty" and gk[3] else ""))
         if not ev.macro_ok:
             codes = ev.macro_error_codes()
-            if "E0425" in codes and d17_shape(plan) and "F-D17" in known:
+            if ("E0425" in codes or d17_captured(plan, codes)) and d17_shape(plan) and "F-D17" in known:
                 rep.known("F-D17")
                 continue
             if "E0277" in codes and d18_shape(plan) and "F-D18" in known:
